@@ -45,7 +45,7 @@ def lookup : State → Key → Option Item
 
 /-- `c.items[k] = it` -/
 def set (s : State) (k : Key) (it : Item) : State :=
-  (k, it) :: s.filter (fun p => decide (p.1 ≠ k))
+  (k, it) :: s.filter (fun p => !decide (p.1 = k))
 
 /-- zcache's `Expired`: `now > item.Expiration` (expiration is always > 0 here) -/
 def Item.expired (it : Item) (now : Nat) : Bool := decide (now > it.expiration)
